@@ -36,6 +36,8 @@ var defaultSyncVersion = pegnet.PegnetdSyncVersion
 
 // Apply assigns the package-level variables. Process-global: one era at a time per process.
 func (e Era) Apply() {
+	// the tracked chains are process-global too: put them back, whatever an earlier execution did to them
+	config.OPRChain, config.SPRChain, config.TransactionChain = IDs.OPR, IDs.SPR, IDs.TX
 	config.PegnetActivation = e.Base
 	config.GradingV2Activation = e.GradingV2
 	config.TransactionConversionActivation = e.TxConv
